@@ -117,6 +117,22 @@ class FakeChronyd(threading.Thread):
                 rep = tracking_reply(data, ref_id=self.ref_id)
             elif mode == "unsync":
                 rep = tracking_reply(data, ref_id=self.ref_id, leap=3, delay=1.0, dispersion=1.0)
+            elif mode == "badversion":
+                # prompt replies the client cannot use: another protocol version
+                rep = bytearray(tracking_reply(data, ref_id=self.ref_id))
+                rep[0] = 5
+                rep = bytes(rep)
+            elif mode == "badseq":
+                rep = bytearray(tracking_reply(data, ref_id=self.ref_id))
+                struct.pack_into(">I", rep, 16, (struct.unpack_from(">I", rep, 16)[0] + 1) & 0xFFFFFFFF)
+                rep = bytes(rep)
+            elif mode == "short":
+                rep = tracking_reply(data, ref_id=self.ref_id)[:40]
+            elif mode == "errorstatus":
+                # a well-formed reply with the right sequence number that is not tracking data: RPY_NULL, status "unauthorised"
+                rep = bytearray(tracking_reply(data, ref_id=self.ref_id)[:28])
+                struct.pack_into(">HH", rep, 6, 1, 2)
+                rep = bytes(rep)
             else:
                 continue
             try:
@@ -241,7 +257,12 @@ def c19_life(args, spec, signame):
     samples = 0
     while time.monotonic() - t0 < 4.2:
         now = time.monotonic() - t0
-        if not signalled and now >= 1.6 and signame:
+        if signame == "REFUSE":
+            # chronyd answers every request with an error status for a while, then recovers
+            want_mode = "errorstatus" if 1.3 <= now < 3.0 else "answer"
+            if chronyd.mode != want_mode:
+                chronyd.set_mode(want_mode)
+        elif not signalled and now >= 1.6 and signame:
             signalled = True
             if p.poll() is None:
                 p.send_signal(getattr(signal, signame))
@@ -332,6 +353,18 @@ def run_plan(binary, plan):
         natural = "worker-stalls"
     if natural == "shm-is-directory":
         os.makedirs(SHM, exist_ok=True)
+    if natural == "segment-dir-full":
+        # the segment's directory is a file system without a free block (ENOSPC on the first write)
+        d = os.path.dirname(SHM)
+        os.makedirs(d, exist_ok=True)
+        subprocess.run(["mount", "-t", "tmpfs", "-o", "size=64k", "tmpfs", d], check=True)
+        try:
+            with open(os.path.join(d, "filler"), "wb") as f:
+                while True:
+                    f.write(b"x" * 4096)
+                    f.flush()
+        except OSError:
+            pass
     phc_file = None
     args = [binary] + plan.get("args", [])
     if natural and natural.startswith("phc"):
